@@ -515,6 +515,15 @@ func c15File(c *fw.Ctx, r *rand.Rand, j int) {
 	case 6: // archive count extreme
 		binary.BigEndian.PutUint32(img[12:], uint32(extremes[r.Intn(len(extremes))]))
 		how = "extreme-archive-count"
+	case 9:
+		if r.Intn(2) == 0 {
+			// aggregation methods that exist in the enum but are not storable (mix, percentile) and other small values
+			binary.BigEndian.PutUint32(img[0:], uint32([]int{0, 7, 8, 9, 255}[r.Intn(5)]))
+			how = "unstorable-method"
+			break
+		}
+		img, how = mutate(r, img)
+		how = "file-" + how
 	case 7: // tiny files
 		img = img[:minI(len(img), r.Intn(40))]
 		how = "tiny"
@@ -598,6 +607,24 @@ func c15File(c *fw.Ctx, r *rand.Rand, j int) {
 		opsList = append(opsList, opf{fmt.Sprintf("UpdatePointsForArchive(%d)", ai), func() error {
 			return h.UpdatePointsForArchive([]wt.Point{{Time: u32(clampTS(now - ret + 1)), Value: 1}, {Time: u32(now), Value: 2}, {Time: u32(clampTS(now - r.Int63n(maxI64(ret, 1)))), Value: 3}}, ai, u32(now))
 		}})
+	}
+	// a dense batch filling one whole coarser interval: propagation then has enough known values to aggregate
+	if k >= 2 {
+		a0, a1 := h.ArchiveInfoList()[0], h.ArchiveInfoList()[1]
+		s0, s1 := int64(a0.SecondsPerPoint()), int64(a1.SecondsPerPoint())
+		if s0 > 0 && s1 > 0 && s1/s0 <= 400 {
+			base := clampTS(now - now%s1 - s1)
+			var pts []wt.Point
+			for t := base; t < base+s1 && t <= now; t += s0 {
+				pts = append(pts, wt.Point{Time: u32(clampTS(t)), Value: wt.Value(float64(t % 17))})
+			}
+			opsList = append(opsList, opf{"UpdatePointsForArchive(0, dense coarser interval)", func() error {
+				return h.UpdatePointsForArchive(pts, 0, u32(now))
+			}})
+			opsList = append(opsList, opf{"UpdateMany(dense coarser interval)", func() error {
+				return h.UpdatePointsForArchive(append([]wt.Point(nil), pts...), wt.ArchiveIDBest, u32(now))
+			}})
+		}
 	}
 	opsList = append(opsList, opf{"Fetch(best)", func() error {
 		_, err := h.FetchFromArchive(wt.ArchiveIDBest, u32(maxI64(0, minI64(now, now-int64(h.MaxRetention())))), u32(now), u32(now))
